@@ -37,6 +37,11 @@ pub struct Recorder {
 }
 
 impl Recorder {
+    /// A recorder that writes no case files (monitor mode): only counts calls and panics.
+    pub fn disabled() -> Recorder {
+        Recorder { shards: vec![], rr: 0, calls: 0, panics: Default::default(), hist: Default::default(), enabled: false }
+    }
+
     pub fn put(&mut self, o: &CallOutcome, meta: &str) {
         self.calls += 1;
         if let Some(m) = &o.panicked {
@@ -73,6 +78,23 @@ pub struct Sim {
     pub trace_tail: usize,
     pub run_id: u64,
     pub trace_len: u64,
+    /// attached runtime monitors (None: the simulator behaves exactly as without this field)
+    pub mon: Option<Box<crate::monitor::MonitorSet>>,
+    /// set by a monitor violation: the run stops
+    pub halted: bool,
+    /// no "PANIC on node" print when a call panics (monitor mode)
+    pub quiet: bool,
+    /// monitor-only: mixes ill-addressed steps (local message types, responses of unknown
+    /// peers) into the random events; consumes random numbers only when set
+    pub extra_steps: bool,
+    /// monitor-only: forces pre_vote and check_quorum on, no learners, priority 0, >= 3 voters
+    pub force_prevote_cq: bool,
+    /// monitor-only: every node's Storage::snapshot is the application's real snapshot (never
+    /// MemStorage::snapshot, which fabricates an index it does not have)
+    pub force_sim_snap: bool,
+    /// monitor-only: the application never calls campaign() on a node that is not a voter of
+    /// its own configuration
+    pub voter_campaign_only: bool,
     pub pt: crate::ptrace::PTrace,
 }
 
@@ -108,7 +130,7 @@ pub fn call_kind(c: &Call) -> &'static str {
 
 impl Sim {
     pub fn new(seed: u64, rec: Recorder) -> Sim {
-        Sim { nodes: vec![], net: vec![], rng: Rng::new(seed), rec, next_payload: 1, max_log: 12, trace: vec![], keep_trace: false, trace_tail: 60, run_id: seed, trace_len: 0, pt: Default::default() }
+        Sim { nodes: vec![], net: vec![], rng: Rng::new(seed), rec, next_payload: 1, max_log: 12, trace: vec![], keep_trace: false, trace_tail: 60, run_id: seed, trace_len: 0, mon: None, halted: false, quiet: false, extra_steps: false, force_prevote_cq: false, force_sim_snap: false, voter_campaign_only: false, pt: Default::default() }
     }
 
     /// Random cluster shape and per-node configuration.
@@ -123,7 +145,14 @@ impl Sim {
         let check_quorum = rng.chance(1, 2);
         let batch = rng.chance(1, 4);
         let lease = check_quorum && rng.chance(1, 4);
-        let sim_snap = !rng.chance(1, 8);
+        let sim_snap = !rng.chance(1, 8) || self.force_sim_snap;
+        let force = self.force_prevote_cq;
+        let (voters, learners, pre_vote, check_quorum, lease) = if force {
+            let nv = if nv < 3 { 3 } else { nv };
+            ((1..=nv).collect::<Vec<u64>>(), Vec::<u64>::new(), true, true, false)
+        } else {
+            (voters, learners, pre_vote, check_quorum, lease)
+        };
         for id in voters.iter().chain(learners.iter()) {
             let mut cfg = Config::new(*id);
             cfg.election_tick = 5 + rng.below(4) as usize;
@@ -143,6 +172,9 @@ impl Sim {
             cfg.max_apply_unpersisted_log_limit = *rng.pick(&[0u64, 0, 1, 3]);
             cfg.priority = if rng.chance(1, 6) { rng.below(3) as i64 } else { 0 };
             cfg.disable_proposal_forwarding = rng.chance(1, 8);
+            if force {
+                cfg.priority = 0;
+            }
             let store = MemStorage::new_with_conf_state((voters.clone(), learners.clone()));
             let sstore = SimStorage::new(store.clone(), sim_snap);
             self.nodes.push(SimNode { id: *id, cfg, store, sstore, driver: None, applied: 0, reported: 0, async_pending: VecDeque::new(), to_apply: VecDeque::new() });
@@ -152,6 +184,27 @@ impl Sim {
         }
         self.pt.inc = voters.clone();
         self.pt.enabled = true;
+        self.with_mon(|m, s| m.on_boot(s));
+    }
+
+    /// Runs `f` on the attached monitor set (if any) with read access to the simulator.
+    pub fn with_mon(&mut self, f: impl FnOnce(&mut crate::monitor::MonitorSet, &Sim)) {
+        if let Some(mut m) = self.mon.take() {
+            f(&mut m, self);
+            if m.wants_halt() && !self.halted {
+                self.halted = true;
+                m.halt_at = self.trace.len();
+                m.fail_state = crate::monitor::describe(self);
+            }
+            self.mon = Some(m);
+        }
+    }
+
+    pub(crate) fn note(&mut self, f: impl FnOnce() -> String) {
+        if self.mon.is_some() && self.keep_trace {
+            let l = f();
+            self.trace.push(l);
+        }
     }
 
     pub fn start(&mut self, i: usize) {
@@ -176,18 +229,37 @@ impl Sim {
                     let (first, ents, cm) = (lg.first_index(), lg.all_entries(), lg.committed);
                     self.pt.observe(id, first, &ents, cm, &[]);
                 }
+                self.note(|| format!("{} (re)start", id));
+                self.with_mon(|m, s| m.on_restart(s, i));
             }
-            Ok(Err(_)) | Err(_) => {
+            Ok(Err(e)) => {
                 *self.rec.panics.entry("RawNode::new failed".to_string()).or_insert(0) += 1;
+                let msg = format!("RawNode::new failed: {:?}", e);
+                self.with_mon(|m, s| m.on_start_failed(s, i, &msg));
+            }
+            Err(e) => {
+                *self.rec.panics.entry("RawNode::new failed".to_string()).or_insert(0) += 1;
+                let msg = format!("RawNode::new failed: {}", e);
+                self.with_mon(|m, s| m.on_start_failed(s, i, &msg));
             }
         }
     }
 
-    fn idx_of(&self, id: u64) -> Option<usize> {
+    pub(crate) fn idx_of(&self, id: u64) -> Option<usize> {
         self.nodes.iter().position(|n| n.id == id)
     }
 
     pub fn call(&mut self, i: usize, c: Call) -> Option<CallOutcome> {
+        if self.halted {
+            return None;
+        }
+        let pre = match self.mon.as_mut() {
+            Some(m) => match self.nodes[i].driver.as_ref() {
+                Some(d) => Some(m.pre(&d.node, &c)),
+                None => None,
+            },
+            None => None,
+        };
         let d = self.nodes[i].driver.as_mut()?;
         let role = d.node.raft.state;
         let ppre = (d.node.raft.term, d.node.raft.vote, d.node.raft.state);
@@ -241,7 +313,7 @@ impl Sim {
         self.rec.put(&o, &meta);
         if let Some(p) = &o.panicked {
             // a panicked node is dead: the application would crash
-            if self.keep_trace {
+            if self.keep_trace && !self.quiet {
                 let n = self.trace.len();
                 println!("PANIC on node {}: {}", self.nodes[i].id, p);
                 for l in &self.trace[n.saturating_sub(self.trace_tail)..] {
@@ -249,12 +321,24 @@ impl Sim {
                 }
             }
             self.nodes[i].driver = None;
+            if let Some(pre) = pre {
+                self.with_mon(|m, s| m.after(s, i, &c, &o, pre));
+                self.with_mon(|m, s| m.on_crash(s, i));
+            }
             return None;
+        }
+        if let Some(pre) = pre {
+            self.with_mon(|m, s| m.after(s, i, &c, &o, pre));
         }
         Some(o)
     }
 
-    fn send(&mut self, msgs: Vec<Message>) {
+    pub(crate) fn send(&mut self, i: usize, msgs: Vec<Message>) {
+        if self.mon.is_some() {
+            for m in &msgs {
+                self.with_mon(|mm, s| mm.on_send(s, i, m));
+            }
+        }
         for m in msgs {
             self.pt.send(&m);
             if self.net.len() < 400 {
@@ -266,7 +350,7 @@ impl Sim {
     /// Applies handed-out committed entries to the simulated state machine: conf
     /// changes go through apply_conf_change.  `report` also tells raft (advance_apply_to);
     /// that is not done between ready() and advance*().
-    fn apply_entries(&mut self, i: usize, upto_all: bool, report: bool) {
+    pub(crate) fn apply_entries(&mut self, i: usize, upto_all: bool, report: bool) {
         let limit = if upto_all { usize::MAX } else { 1 + self.rng.below(3) as usize };
         let mut k = 0;
         while k < limit {
@@ -275,6 +359,9 @@ impl Sim {
                 None => break,
             };
             k += 1;
+            if self.mon.is_some() {
+                self.with_mon(|m, s| m.on_apply(s, i, &e));
+            }
             let cc = match e.get_entry_type() {
                 EntryType::EntryNormal => None,
                 EntryType::EntryConfChange => {
@@ -305,7 +392,7 @@ impl Sim {
         }
     }
 
-    fn report_applied(&mut self, i: usize) {
+    pub(crate) fn report_applied(&mut self, i: usize) {
         if self.nodes[i].driver.is_some() && self.nodes[i].applied > self.nodes[i].reported {
             let a = self.nodes[i].applied;
             self.nodes[i].reported = a;
@@ -313,7 +400,7 @@ impl Sim {
         }
     }
 
-    fn write_ready(&mut self, i: usize, rv: &ReadyView) {
+    pub(crate) fn write_ready(&mut self, i: usize, rv: &ReadyView) {
         let n = &mut self.nodes[i];
         let mut st = n.store.wl();
         if rv.snapshot.get_metadata().index != 0 {
@@ -343,6 +430,9 @@ impl Sim {
             };
             self.pt.durable(n.id, first, &ents);
         }
+        if self.mon.is_some() {
+            self.with_mon(|m, s| m.on_write(s, i, rv));
+        }
     }
 
     /// One synchronous or asynchronous Ready round on node i.
@@ -362,7 +452,7 @@ impl Sim {
             None => return,
         };
         let rv = o.ready.unwrap();
-        self.send(rv.messages.clone());
+        self.send(i, rv.messages.clone());
         self.write_ready(i, &rv);
         for e in &rv.committed_entries {
             self.nodes[i].to_apply.push_back(e.clone());
@@ -370,7 +460,7 @@ impl Sim {
         let mode = self.rng.below(10);
         if mode < 5 {
             // sync: handle committed entries, then advance (which reports applied itself)
-            self.send(rv.persisted_messages.clone());
+            self.send(i, rv.persisted_messages.clone());
             self.apply_entries(i, true, false);
             if self.nodes[i].driver.is_none() {
                 return;
@@ -380,7 +470,7 @@ impl Sim {
                 self.after_light(i, o);
             }
         } else if mode < 7 {
-            self.send(rv.persisted_messages.clone());
+            self.send(i, rv.persisted_messages.clone());
             if let Some(o) = self.call(i, Call::AdvanceAppend) {
                 self.after_light(i, o);
             }
@@ -397,12 +487,12 @@ impl Sim {
         }
     }
 
-    fn after_light(&mut self, i: usize, o: CallOutcome) {
+    pub(crate) fn after_light(&mut self, i: usize, o: CallOutcome) {
         if let Some(l) = o.light {
             if let Some(c) = l.commit_index() {
                 self.nodes[i].store.wl().mut_hard_state().commit = c;
             }
-            self.send(l.messages().to_vec());
+            self.send(i, l.messages().to_vec());
             for e in l.committed_entries() {
                 self.nodes[i].to_apply.push_back(e.clone());
             }
@@ -424,11 +514,11 @@ impl Sim {
             msgs.extend(m);
         }
         if self.call(i, Call::OnPersistReady(num)).is_some() {
-            self.send(msgs);
+            self.send(i, msgs);
         }
     }
 
-    fn deliver(&mut self) {
+    pub(crate) fn deliver(&mut self) {
         if self.net.is_empty() {
             return;
         }
@@ -439,17 +529,17 @@ impl Sim {
         }
     }
 
-    fn leader(&self) -> Option<usize> {
+    pub(crate) fn leader(&self) -> Option<usize> {
         self.nodes.iter().position(|n| n.driver.as_ref().map_or(false, |d| d.node.raft.state == StateRole::Leader))
     }
 
-    fn payload(&mut self) -> Vec<u8> {
+    pub(crate) fn payload(&mut self) -> Vec<u8> {
         let len = *self.rng.pick(&[0usize, 1, 3, 8, 20, 45]);
         self.next_payload += 1;
         (0..len).map(|k| ((self.next_payload as usize + k) % 251) as u8).collect()
     }
 
-    fn random_cc(&mut self) -> CcKind {
+    pub(crate) fn random_cc(&mut self) -> CcKind {
         let max_id = self.nodes.len() as u64 + 2;
         let n = 1 + self.rng.below(3);
         let changes: Vec<(u64, u64)> = (0..n).map(|_| (self.rng.below(3), self.rng.below(max_id + 1))).collect();
@@ -470,17 +560,49 @@ impl Sim {
         }
     }
 
-    fn compact(&mut self, i: usize) {
+    pub(crate) fn compact(&mut self, i: usize) {
         let n = &mut self.nodes[i];
         let first = n.store.first_index().unwrap();
         if n.applied > first {
             let to = first + 1 + self.rng.below(n.applied - first);
             // the snapshot point a leader would ship must be the compaction point's commit
             let _ = catch(|| n.store.wl().compact(to));
+            let id = n.id;
+            self.note(|| format!("{} compact store to {}", id, to));
         }
     }
 
+    /// Monitor-only event (flag `extra_steps`): offers RawNode::step a local message type or a
+    /// response from a peer that is not in the progress map.  Must be rejected, state unchanged.
+    fn bogus_step(&mut self) {
+        let nn = self.nodes.len();
+        let i = self.rng.below(nn as u64) as usize;
+        let term = self.nodes[i].driver.as_ref().map_or(0, |d| d.node.raft.term);
+        let mut m = Message::default();
+        let local = self.rng.chance(1, 2);
+        let ty = if local {
+            *self.rng.pick(&[MessageType::MsgHup, MessageType::MsgBeat, MessageType::MsgUnreachable, MessageType::MsgSnapStatus, MessageType::MsgCheckQuorum])
+        } else {
+            *self.rng.pick(&[MessageType::MsgAppendResponse, MessageType::MsgRequestVoteResponse, MessageType::MsgHeartbeatResponse, MessageType::MsgUnreachable, MessageType::MsgRequestPreVoteResponse])
+        };
+        m.set_msg_type(ty);
+        m.to = self.nodes[i].id;
+        m.from = if local { 1 + self.rng.below(nn as u64) } else { 90 + self.rng.below(5) };
+        m.term = match self.rng.below(3) {
+            0 => term,
+            1 => term + 1,
+            _ => 0,
+        };
+        m.index = self.rng.below(8);
+        m.reject = self.rng.chance(1, 2);
+        self.call(i, Call::Step(m));
+    }
+
     pub fn step_random(&mut self) {
+        if self.extra_steps && self.rng.chance(1, 40) {
+            self.bogus_step();
+            return;
+        }
         let nn = self.nodes.len();
         let i = self.rng.below(nn as u64) as usize;
         let r = self.rng.below(1000);
@@ -517,13 +639,17 @@ impl Sim {
                 self.call(i, Call::TransferLeader(to));
             }
             900..=909 => {
-                self.call(i, Call::Campaign);
+                let skip = self.voter_campaign_only && self.nodes[i].driver.as_ref().map_or(false, |d| !d.node.raft.promotable());
+                if !skip {
+                    self.call(i, Call::Campaign);
+                }
             }
             910..=929 => self.compact(i),
             930..=939 => {
                 if !self.net.is_empty() {
                     let k = self.rng.below(self.net.len() as u64) as usize;
-                    self.net.remove(k);
+                    let m = self.net.remove(k);
+                    self.note(|| format!("net drop {:?} {}->{}", m.get_msg_type(), m.from, m.to));
                 }
             }
             940..=949 => {
@@ -546,6 +672,9 @@ impl Sim {
                     self.pt.crash(nid);
                     self.nodes[i].async_pending.clear();
                     self.nodes[i].to_apply.clear();
+                    let id = self.nodes[i].id;
+                    self.note(|| format!("{} crash", id));
+                    self.with_mon(|m, s| m.on_crash(s, i));
                 }
             }
             970..=984 => {
@@ -602,7 +731,7 @@ impl Sim {
     pub fn run(&mut self, steps: usize) {
         self.boot();
         let mut done = 0;
-        while done < steps {
+        while done < steps && !self.halted {
             if self.rng.chance(1, 3) {
                 let r = 2 + self.rng.below(12) as usize;
                 self.healthy_phase(r);
